@@ -19,4 +19,20 @@ SliceOK(clock, inc, mtg, slice) ==
   /\ (base > 0 => slice <= (8 * base + 5 * mtg) \div (10 * mtg))
   /\ (base <= 0 /\ inc <= 0 => slice = 0)
 
+(***************************************************************************)
+(* The engine's own formula (time_control.rs) transcribed into integers:   *)
+(* SliceProof.tla shows with Apalache that it meets SliceOK for every      *)
+(* integer clock and increment; the trace specification counts on how many *)
+(* recorded events the real calculate_time_slice returned exactly this     *)
+(* value (coverage of that argument - a different formula that still meets *)
+(* SliceOK is not a violation).  variant "pinned" = the pinned commit.     *)
+(***************************************************************************)
+Round08(x) == (8 * x + 5) \div 10            \* round-half-up of 0.8 * x for x >= 0
+MinI(a, b) == IF a < b THEN a ELSE b
+CodeSliceOf(c, i, m, variant) ==
+  LET base == c - Margin IN
+  IF base <= 0
+  THEN IF i > 0 THEN (IF variant = "pinned" THEN Round08(i) ELSE MinI(Round08(i), Max0(c))) ELSE 0
+  ELSE (8 * base + 5 * m) \div (10 * m)
+
 =============================================================================
